@@ -108,7 +108,7 @@ Proof.
   - destruct (lookup i (l_objs s)) as [o|] eqn:Hl; [|apply frame_refl; exact Hp].
     pose proof (okp_lookup _ _ _ Hp Hl) as Ho.
     assert (Ho1 : okp (fst (if w then sys_write o (op_len p - op_sofar p) else sys_read o (op_len p - op_sofar p)))).
-    { destruct w; [rewrite sys_write_bits; exact Ho|apply sys_read_okp; exact Ho]. }
+    { destruct w; [destruct (sys_write_fields o (op_len p - op_sofar p)) as (A1 & A2 & A3 & A4 & A5 & A6 & A7); apply (okp_same o); assumption|apply sys_read_okp; exact Ho]. }
     destruct (if w then sys_write o (op_len p - op_sofar p) else sys_read o (op_len p - op_sofar p)) as [o1 r].
     cbn [fst] in Ho1.
     destruct r.
@@ -538,7 +538,7 @@ Proof.
   - change (l_objs s1) with (l_objs s). destruct (lookup i (l_objs s)) as [ob|] eqn:Hl; [|unfold idle; auto 10].
     unfold idle. split; [|auto]. unfold pollable, set_obj; cbn. apply okp_update; [exact I1|].
     pose proof (okp_lookup _ _ _ I1 Hl) as Ho.
-    destruct p; [| destruct (o_kind ob) eqn:Ek | | |contradiction]; try exact Ho; apply (okp_same ob); auto.
+    destruct p; [| destruct (o_kind ob) eqn:Ek | | |contradiction|]; try exact Ho; apply (okp_same ob); auto.
   - unfold idle; auto 10.
   - apply (Hexec [] (map IPollEntry batch)); try reflexivity; [constructor|apply itemB_batch|exact Hf].
   - destruct a; try contradiction.
